@@ -179,3 +179,52 @@ CLAIMS['C16'] = {
   'note': 'This is the thinnest claim of the set; most of the property is listed as not decided in the evidence explanation.',
 }
 NOT_APPLICABLE = {}
+
+# ---------------------------------------------------------------- additions of the second build session (rules added after round 2 of seeded changes)
+_ADD = {
+ 'C01': ('; kernel rules (scratch cleared after accumulating calls, segment-size guard agreement, tempv layout, leading-dimension discipline)',
+         ' Added necessary conditions on the numerical updates: every accumulating dense call (?gemm_/?gemv_ with beta = 1, ?matvec) into a scratch vector is '
+         'followed on every path by a loop that zeroes it; in the 2-D panel update all statements touching the parked triangular-solve vectors run for one and '
+         'the same set of segment sizes; ?LUWorkInit, ?SetRWork and ?panel_bmod agree on the per-column layout of tempv in terms of sp_ienv; every product that '
+         'contributes to a position in the supernodal value block has the leading dimension as a factor.'),
+ 'C02': ('; index-kind (units-of-measure) dataflow R11; factor-kernel rules',
+         ' R11: a forward dataflow assigns every integer local the kind of index it holds (row, column, pivot position, supernode, place in lsub/lusup/usub) '
+         'from the documented domain/range of each array and from loop bounds, and reports subscripts, stored values and array arguments of a definitely wrong '
+         'kind (perm_c where iperm_c is expected, a loop over the column count sweeping perm_r). The factor-kernel rules of C01 run here as well.'),
+ 'C03': ('; index-kind dataflow R11', ' R11 index kinds (see C02): e.g. the completion of perm_r must sweep all m rows.'),
+ 'C06': ('; GlobalLU_t mirror rule; workspace-stack invariant R6',
+         ' Locals named after GlobalLU_t fields are loaded from / stored to the field of the same name (603 sites), and the stack bookkeeping of the caller '
+         'workspace is preserved by ?LUWorkFree (R6), so that a re-factorization starts from consistent capacities and a consistent stack.'),
+ 'C07': ('; stale capacity copies (R5.b), R6, mirror rule, copy helpers, moved-block extent',
+         ' R5.b also tracks local copies of the capacities nzlumax / nzumax / nzlmax (stale after a call that may raise them unless refreshed through &maxlen); '
+         'copy_mem_* move `howmany` elements of their element type; the block shifted by ?expand ends at stack.top1.'),
+ 'C08': ('; moved-block extent; usable size within lwork',
+         ' The block shifted by ?expand is [expanders[type+1].mem, stack.array + stack.top1); stack.size / stack.top2 derived from lwork never exceed lwork and are '
+         'multiples of 4 (closed form evaluated over several periods).'),
+ 'C09': ('; shared inputs never written (R10); re-entry state of ?lacon2; fill extents',
+         ' R10.shared: L, U, the permutations and the matrix arrays handed to the bridge are in no may-write set of the solve-side routines / the bridge. '
+         'R1.vi: per-resume-state must-be-written dataflow shows that every slot of the caller-side isave[] of ?lacon2 is written before it is read on every call '
+         'history. R1.v: the filled extent of each carved work array equals the carved length.'),
+ 'C10': ('; index-kind dataflow R11', ' R11 index kinds incl. allocation extents of local arrays in the rectangular-capable routines (getata, sp_coletree ...).'),
+ 'C12': ('; scratch rule on sp_?trsv; re-entry state of ?lacon2; warning test on every path',
+         ' The comparison of rcond with machine epsilon lies on every path from ?gscon to a return (also for nrhs = 0); sp_?trsv keeps its gemv scratch cleared; '
+         'isave[] of ?lacon2 is written before read on every call history.'),
+ 'C13': ('; guarded division', ' Every division by an element of the BERR denominator array sits under a test that excludes an exactly-zero denominator.'),
+ 'C14': ('; kernel rules (scratch, strided cursors, unrolled column pointers)',
+         ' Scratch vectors cleared after accumulating calls; cursors advanced by a stride parameter advance once per iteration; the column pointers of the '
+         'bundled ?lsolve / ?matvec blocks start at M0 + j*ldm (+ j+1) by linear-form evaluation.'),
+ 'C15': ('; index-kind dataflow R11; drop-row alignment', ' R11 (swap/iswap of the ILU pivoting are position->row / row->position); ilu_?drop_row moves the values and the subscript of a row between the same two slots.'),
+ 'C16': ('; header keyword, field slices, symmetric-expansion capacity, allocation element size',
+         ' ?readMM lets through exactly the arithmetic keyword of its data type; every line-buffer access in the per-field loops depends on the field counter; '
+         'arrays receiving the symmetric expansion are sized 2*nnz minus a counted number of stored diagonal entries (or 2*nnz); raw allocations are sized with '
+         'an element at least as large as the pointee. Three reader defects found by these rules were repaired in /repo.'),
+ 'C17': ('; in-place list hazard; match counter rule',
+         ' No MC64 loop reads the shared work array q[] as a list while writing it (the defect this found in mc64wd_ is repaired in /repo); *num is advanced in the '
+         'augmenting loop only behind csp != rinf.'),
+ 'C19': ('; allocation element size; index-kind dataflow R11; predicates killed on address-taken scalars',
+         ' Every raw allocation is sized with an element at least as large as the pointee in both index widths; R11 index kinds / local allocation extents; a guard '
+         'variable whose address was passed to a callee no longer correlates an allocation with its release.'),
+}
+for _k, (_t, _x) in _ADD.items():
+    CLAIMS[_k]['technique'] += _t
+    CLAIMS[_k]['text'] += _x
